@@ -172,7 +172,10 @@ private theorem closeStream_cur (st : St) : (closeStream st).1.cur = none := by
 private theorem maybeRecycle_cur (st : St) : (maybeRecycle st).1.cur = none := by
   unfold maybeRecycle
   have := closeStream_cur st
-  (repeat' split) <;> simp_all
+  simp only []
+  split
+  · split <;> simp_all
+  · simp_all
 
 private theorem inv_of_cur_none (st : St) (h : st.cur = none) : Inv st := by intro hc; simp [h] at hc
 
@@ -439,7 +442,7 @@ theorem serial (cfg : Cfg) (token : Bytes → Bytes) (ext : Option Bytes) (ops :
         exfalso
         exact hI' (by rw [hcur, hc]; rfl) hidle
 
-private theorem closeStream_outs (st : St) : ∀ o ∈ (closeStream st).2,
+theorem closeStream_outs (st : St) : ∀ o ∈ (closeStream st).2,
     (∃ a, o = Out.access a) ∨ (∃ i m, o = Out.putHttp i m) ∨ (∃ i m, o = Out.putWs i m) := by
   intro o ho
   unfold closeStream at ho
@@ -482,6 +485,17 @@ theorem reuse_iff (st : St) :
   · have hcond : (!st.terminated && st.lib.server == .done && st.lib.client == .done && !st.wsMode) = false := by
       cases ht : st.terminated <;> cases hw : st.wsMode <;> simp_all
     simp [hcond, hn1, hn2, hc]
+
+/-- `_maybe_recycle` never calls into h11's `send`: its outputs are the close-stream notifications, the cycle restart
+    and the `Updated` / `Closed` events -/
+theorem maybeRecycle_no_libSend (st : St) (e : LibSend) (ok : Bool) : Out.libSend e ok ∉ (maybeRecycle st).2 := by
+  intro hmem
+  have hcs := closeStream_outs st
+  unfold maybeRecycle at hmem
+  have hin : Out.libSend e ok ∈ (closeStream st).2 := by
+    simp only [] at hmem
+    (repeat' split at hmem) <;> simp at hmem <;> exact hmem
+  rcases hcs _ hin with ⟨a, ha⟩ | ⟨j, m, ha⟩ | ⟨j, m, ha⟩ <;> cases ha
 
 /-- **after a close decision nothing more is served**: if the protocol did not recycle when its current stream ended,
     h11 will never yield another `Request` on this connection (the client side is not IDLE and never returns to it) -/
